@@ -46,3 +46,27 @@ package linker
 //@   site own-node: store SLocal.Decls requires fresh(target)
 //@   loop 0 invariant 1 <= end && end <= len(stmts) && end <= rangeindex + 2
 //@   loop 0 invariant didMergeWithPreviousLocal ==> is(stmts[end-1].Data, *js_ast.SLocal) && fresh(stmts[end-1].Data.(*js_ast.SLocal))
+
+// ----------------------------------------------------------------------------------------------
+// C18: "two files emitted under the same path have identical bytes": the content hash must cover every
+// field the final bytes of a chunk depend on.
+//  - generateIsolatedHash: the bytes between placeholders (outputPiece.data), the part ranges, the output
+//    path template, the public path and the linked legal comments reach the digest, length-prefixed where
+//    boundaries matter; and WHICH chunk or asset each placeholder stands for (outputPiece.kind / .index).
+//  - appendIsolatedHashesForImportedChunks: every cross-chunk import (static or dynamic) is visited
+//    unconditionally, the asset path mixed into the hash is the path relative to the output directory (the
+//    text that ends up in the file), and the chunk's own isolated hash is always mixed in.
+//@ hashed isolated-hash C18: func=(*linkerContext).generateIsolatedHash ; in=linker ; sink=hashWriteLengthPrefixed:1,hashWriteUint32:1,Write:0 ; scenario=hash_placeholder_targets ; must=outputPiece.data>hashWriteLengthPrefixed,partRange.partIndexBegin,partRange.partIndexEnd,partRange.sourceIndex,PathTemplate.Data>hashWriteLengthPrefixed,Options.PublicPath>hashWriteLengthPrefixed,outputPiece.kind,outputPiece.index
+//@ hashed legal-comments C18: func=(*linkerContext).generateIsolatedHash ; in=linker ; sink=hashWriteLengthPrefixed:1,hashWriteUint32:1,Write:0 ; scenario=legal_comments_hash ; must=chunkInfo.externalLegalComments>hashWriteLengthPrefixed
+//@ unguarded visit-every-import C18: func=(*linkerContext).appendIsolatedHashesForImportedChunks ; in=linker ; site=call appendIsolatedHashesForImportedChunks ; allow=false:visited[chunkIndex]==visitedKey ; argpath=2:c.chunks[chunkIndex].crossChunkImports[*].chunkIndex
+//@ flow asset-path-is-relative C18: func=(*linkerContext).appendIsolatedHashesForImportedChunks ; in=linker ; site=call hashWriteLengthPrefixed ; argpath=1:call ReplaceAll(call Rel(c.fs,c.options.AbsOutputDir,*.InputFile.AdditionalFiles[*].AbsPath)#0,*
+
+// ----------------------------------------------------------------------------------------------
+// C19: the metafile's byte counts are the lengths of what is actually emitted.
+//  - the "bytes" of a chunk is len() of the very value that becomes the output file's contents (computed
+//    after the source-map comment has been appended);
+//  - bytesInOutput is computed with paths relative to the importing chunk's own directory, exactly like the
+//    substitution that produces the final text.
+//@ flow chunk-bytes-is-final-length C19: func=(*linkerContext).generateChunksInParallel ; in=linker ; site=dyncall jsonMetadataChunkCallback ; argpath=0:call len(call Done(outputContentsJoiner))
+//@ flow chunk-contents-is-final-output C19: func=(*linkerContext).generateChunksInParallel ; in=linker ; site=store OutputFile.Contents ; valuepath=call Done(outputContentsJoiner)|phi:outputSourceMap|*outputSourceMap*|*externalLegalComments*
+//@ flow count-relative-to-own-dir C19: func=(*linkerContext).accurateFinalByteCount ; in=linker ; site=call pathBetweenChunks ; argpath=1:chunkFinalRelDir
